@@ -87,6 +87,12 @@ class C11(core.Check):
             ("srv", True, [("conn", 1, [], [], []), ("svc",), ("conn", 1, [], [], [("ok",)]), ("svc",), ("close",)]),
             ("srv", True, [("conn", 1, [], [], [("ok",)]), ("svc",), ("conn", 1, [], [], [("f", W), ("ok",)]), ("svc",), ("svc",), ("close",)]),
             ("srv", True, [("conn", 1, [], [], [("f", errno.ECONNRESET)]), ("conn", 2, [], [("f", errno.EBADF)], [("ok",)]), ("svc",), ("rm", 2), ("reopen",), ("conn", 2, [], [], []), ("svc",), ("close",)]),
+            # accept() itself fails (EMFILE ...) in a pass that has already accepted others; then close
+            ("srv", False, [("conn", 1, [], [], []), ("conn", 2, [], [], []), ("afault", errno.EMFILE), ("conn", 3, [], [], []), ("svc",), ("close",)]),
+            ("srv", True, [("conn", 1, [], [], [("ok",)]), ("afault", errno.ECONNABORTED), ("conn", 2, [], [], []), ("svc",), ("svc",), ("afault", errno.ENFILE), ("svc",), ("close",)]),
+            ("srv", False, [("afault", errno.EMFILE), ("conn", 1, [], [], []), ("svc",), ("reopen",), ("close",)], "doer"),
+            ("real", False, [("peer", 1), ("peer", 2), ("afault", 1), ("svc",), ("close",)]),
+            ("real", True, [("peer", 1), ("peer", 2), ("peer", 3), ("afault", 2), ("svc",), ("svc",), ("close",)]),
             # the listen socket cannot be had (address in use / no permission): open() fails, possibly several times, then close
             ("srv", False, [("reopenf", "bind", errno.EADDRINUSE), ("close",)]),
             ("srv", True, [("conn", 1, [], [], []), ("svc",), ("reopenf", "bind", errno.EADDRINUSE), ("reopenf", "listen", errno.EACCES), ("reopen",), ("conn", 2, [], [], [("ok",)]), ("svc",), ("close",)]),
@@ -150,8 +156,10 @@ class C11(core.Check):
                     ops.append(("svc",))
                 elif r < 0.85:
                     ops.append(("drop", rng.randrange(1, 4)))
-                elif r < 0.9:
+                elif r < 0.88:
                     ops.append(("close",))
+                elif r < 0.92:
+                    ops += [("peer", 1), ("peer", 2), ("afault", rng.randrange(0, 3)), ("svc",)]
                 elif r < 0.95:
                     ops.append(("clash",))
                 else:
@@ -315,7 +323,7 @@ class C11(core.Check):
             cas = [o[1] for o in ops if o[0] == "conn"]
             if len(cas) != len(set(cas)):
                 f.append("same-address-reconnect")
-            for k in ("rm", "reopen", "reopenf"):
+            for k in ("rm", "reopen", "reopenf", "afault"):
                 if any(o[0] == k for o in ops):
                     f.append("op:" + k)
             if sum(1 for o in ops if o[0] == "close") > 1:
